@@ -204,10 +204,23 @@ func (w *World) tamperCatalogue(req map[string]any, kind ref.OpKind, alg uint, s
 
 	// (e') cross-type replay: the signed data of this operation presented as an operation of another type (request and anchored
 	// type relabelled), with the request's DID suffix kept, removed or emptied. Nobody signed an operation of that type.
-	_, signsSuffix := pm["didSuffix"]
+	// (signed data that carries everything another operation type signs IS that type's signed data, genuinely signed by the key
+	// holder - the members an operation type does not use may be present as extras: not a forgery, so not in this catalogue)
+	signs := func(members ...string) bool {
+		for _, m := range members {
+			if _, has := pm[m]; !has {
+				return false
+			}
+		}
+		return true
+	}
+	completeFor := map[ref.OpKind]bool{
+		ref.Update:     signs("updateKey", "deltaHash"),
+		ref.Recover:    signs("recoveryKey", "deltaHash", "recoveryCommitment"),
+		ref.Deactivate: signs("recoveryKey", "didSuffix"),
+	}
 	for _, other := range []ref.OpKind{ref.Update, ref.Recover, ref.Deactivate} {
-		if other == kind || (other == ref.Deactivate && signsSuffix) {
-			// (signed data that names the DID suffix and a recovery key is a deactivate's signed data: not a forgery)
+		if other == kind || completeFor[other] {
 			continue
 		}
 		for _, sfx := range []string{"kept", "removed", "empty"} {
